@@ -200,4 +200,9 @@ Check (C11_concrete_bytes : forall g np pre Ss opss sched, g_fifo g = true ->
   forall k c x, nth_error (p_chroms (cabs s)) k = Some c -> nth_error (k_x s) k = Some x ->
     exists fwd, fwd ++ x_bw x = data_bytes (c_out c) /\
                 fwd ++ TempBuf.written (TempBuf.p_todo (x_buf x)) = data_bytes (nth k Ss [])).
+Check (C11_zoom_outer_contract : forall (expect : bool) (d0 : bytes) (ws : list bytes) sched,
+  let prog := if expect then [TempBuf.CExpect] else [TempBuf.CSwitch; TempBuf.CAwait] in
+  let b := TempBuf.run d0 sched (TempBuf.init (map TempBuf.PWrite ws) prog) in
+  TempBuf.panicked b = false /\
+  (TempBuf.terminal b = true -> TempBuf.c_dest b = Some (d0 ++ concat ws))).
 End PinC11.
